@@ -76,3 +76,43 @@ Example C01_nonvacuous :
   delivered_n (concat (fst (run c m [p1; p2]))) a = 1%nat /\
   reported_n (concat (fst (run c m [p1; p2]))) b = 1%nat.
 Proof. vm_compute. repeat split; auto. repeat constructor; simpl; intuition discriminate. Qed.
+
+(* ---- the queue above the real remote-MX target, observed at the servers ---- *)
+Require Maddy.Queue.Integ Maddy.Queue.IntegLemmas.
+
+(* Whatever the next hops do - accept, refuse temporarily or permanently, answer 421, drop the
+   connection in the middle of the recipient stage, refuse the content - on any attempt and for
+   any recipient or destination domain: after at most max_tries attempts nothing is pending, and
+   every recipient was either named by exactly one accepted transaction and by no report, or by
+   exactly one failure report and by no accepted transaction. *)
+Theorem C01_remote_exactly_one_terminal_outcome :
+  forall mx (rs : Integ.script Integ.rr) (ds : Integ.script Integ.dr) rcpts,
+    NoDup (map fst rcpts) -> 0 < mx ->
+    let res := Integ.run mx (N.to_nat mx) 0 {| Integ.q_pending := rcpts; Integ.q_rs := rs; Integ.q_ds := ds |} in
+    Integ.q_pending (fst res) = [] /\
+    forall r, In r (map fst rcpts) ->
+      (Integ.commits_of (snd res) r + Integ.reports_of (snd res) r = 1)%nat.
+Proof. exact IntegLemmas.integ_exactly_one_outcome. Qed.
+Print Assumptions C01_remote_exactly_one_terminal_outcome.
+
+(* ... and no recipient is offered to a next hop more than max_tries times *)
+Theorem C01_remote_offered_at_most_max_tries :
+  forall mx (rs : Integ.script Integ.rr) (ds : Integ.script Integ.dr) rcpts r,
+    NoDup (map fst rcpts) ->
+    (length (Integ.replies_of
+       (snd (Integ.run mx (N.to_nat mx) 0 {| Integ.q_pending := rcpts; Integ.q_rs := rs; Integ.q_ds := ds |})) r)
+     <= N.to_nat mx)%nat.
+Proof. exact IntegLemmas.integ_offered_at_most_max_tries. Qed.
+Print Assumptions C01_remote_offered_at_most_max_tries.
+
+(* non-vacuity: three recipients in two domains; the first server drops the connection at the
+   second recipient, then refuses the content once; the third recipient is refused for good *)
+Example C01_remote_nonvacuous :
+  let rcpts := [(0, 0); (1, 0); (2, 1)] in
+  let rs := [(1, [Integ.RDrop]); (2, [Integ.RPerm])] in
+  let ds := [(0, [Integ.DTemp])] in
+  let t := snd (Integ.run 3 3 0 {| Integ.q_pending := rcpts; Integ.q_rs := rs; Integ.q_ds := ds |}) in
+  NoDup (map fst rcpts) /\
+  Integ.commits_of t 0 = 1%nat /\ Integ.commits_of t 1 = 1%nat /\ Integ.reports_of t 2 = 1%nat /\
+  length (Integ.replies_of t 0) = 3%nat.
+Proof. vm_compute. repeat split; auto. repeat constructor; simpl; intuition discriminate. Qed.
